@@ -288,7 +288,14 @@ public:
         break;
       case MUL: if (isC(a)) std::swap(a, b); if (isC(b)) { if (b->c == 0) return b; if (b->c == 1) return a; } break;
       case UDIV: case SDIV: if (isC(b) && b->c == 1) return a; break;
-      case SHL: case LSHR: case ASHR: if (isC(b) && b->c == 0) return a; if (isC(a) && a->c == 0) return a; break;
+      case SHL: case LSHR: case ASHR: if (isC(b) && b->c == 0) return a; if (isC(a) && a->c == 0) return a;
+        // constant shift of a partly known word (bit containers on words that are only partly initialised): push the shift
+        // through constant masks so that the known bits stay visible to the constant-mask rules of mkAnd / mkOr
+        if (op != ASHR && isC(b) && b->c < w && !a->cleaf) {
+          if ((a->op == OR || a->op == AND) && isC(a->x)) { bool ok; Node* c = mkConst(w, fold2(op, w, a->x->c, b->c, ok)); Node* r = mkBin(op, a->y, b); return a->op == OR ? mkOr(c, r) : mkAnd(c, r); }
+          if (a->op == SEL) return mkIte(a->x, mkBin(op, a->y, b), mkBin(op, a->z, b));
+        }
+        break;
       default: break;
     }
     if (op == ADD || op == MUL) { if (!isC(b) && a->id > b->id) std::swap(a, b); }
